@@ -454,6 +454,20 @@ pub fn scenarios(ctx: &Ctx) -> Vec<Scenario> {
     for (l, m) in [(0usize, 0usize), (2, 2), (1, 3)] {
         both!(format!("blind-proof/L{l}/M{m}"), |c, i| repeat_blind_proof::<Sha>(c, i, l, m, n), repeat_blind_proof::<Shake>(c, i, l, m, n));
     }
+    // (c2) many hidden values: buffers, batches and fixed-size tables in the blinding path have their boundaries here
+    for (l, d) in [(33usize, vec![]), (40, vec![0usize, 39]), (70, vec![5]), (130, vec![])] {
+        let (d1, d2) = (d.clone(), d.clone());
+        let k = ctx.t(3, 12);
+        both!(format!("proof/L{l}/many-hidden"), |c, i| repeat_proof::<Sha>(c, i, l, d1, k, 1), repeat_proof::<Shake>(c, i, l, d2, k, 1));
+    }
+    for m in [33usize, 70] {
+        let k = ctx.t(3, 12);
+        both!(format!("commit/M{m}/many-hidden"), |c, i| repeat_commit::<Sha>(c, i, m, k, 1), repeat_commit::<Shake>(c, i, m, k, 1));
+    }
+    for (l, m) in [(20usize, 20usize), (1, 66)] {
+        let k = ctx.t(3, 12);
+        both!(format!("blind-proof/L{l}/M{m}/many-hidden"), |c, i| repeat_blind_proof::<Sha>(c, i, l, m, k), repeat_blind_proof::<Shake>(c, i, l, m, k));
+    }
     // (d) mixed inputs
     for rep in 0..ctx.t(4u64, 16u64) {
         let l = (rep % 5) as usize;
